@@ -392,5 +392,8 @@ def replay(path):
             _, out, _ = vlib.run_driver(impl, c + "\n")
             _, outm, _ = vlib.run_driver(model, c + "\n")
             _, outs, _ = vlib.run_driver(model, spec_line(c) + "\n")
-            print("%s\n  implementation: %s\n  model:          %s\n  specification:  %s" % (c, out.strip(), outm.strip(), outs.strip()))
+            try:
+                print("%s\n  implementation: %s\n  model:          %s\n  specification:  %s" % (c, out.strip(), outm.strip(), outs.strip()), flush=True)
+            except BrokenPipeError:
+                return 0
     return 0
